@@ -323,7 +323,13 @@ type TP = TagProblem;
 
 fn mk_trigger(t: &Sx) -> Box<dyn Condition<TP>> {
     if let Some(a) = t.atom() {
-        return match a { "always" => Box::new(Const(true)), "never" => Box::new(Const(false)), _ => panic!("trigger {a}") };
+        return match a {
+            "always" => Box::new(Const(true)),
+            "never" => Box::new(Const(false)),
+            // a trigger that needs `Logger::init` (its `Previous<L>` state is created there)
+            "changed" => mahf::conditions::common::ChangeOf::new(Box::new(mahf::conditions::common::PartialEqChecker), ValueOf::<X>::new()),
+            _ => panic!("trigger {a}"),
+        };
     }
     let (h, a) = t.head().unwrap();
     match h {
@@ -380,23 +386,26 @@ fn run_program(input: &Sx) -> String {
         config.optimize_with(&problem, |state| {
             state.insert(Random::new(0));
             if let Some((_, rs)) = rules.head() {
-                state.configure_log(|c| {
-                    for r in rs {
-                        if r.atom() == Some("clear") { c.clear(); continue; }
-                        let (h, a) = r.head().unwrap();
-                        if h == "many" {
-                            c.with_many(mk_trigger(&a[0]), a[1..].iter().map(mk_extractor).collect::<Vec<_>>());
-                        } else {
-                            // the identity-lens rules go through `with_auto` (also the way `with_common` registers)
-                            match a[1].atom() {
-                                Some("xid") => { c.with_auto::<X>(mk_trigger(&a[0])); }
-                                Some("iterid") => { c.with_auto::<Iterations>(mk_trigger(&a[0])); }
-                                _ => { c.with(mk_trigger(&a[0]), mk_extractor(&a[1])); }
-                            }
+                let apply = |c: &mut mahf::logging::LogConfig<TP>, r: &Sx| {
+                    if r.atom() == Some("clear") { c.clear(); return; }
+                    let (h, a) = r.head().unwrap();
+                    if h == "many" {
+                        c.with_many(mk_trigger(&a[0]), a[1..].iter().map(mk_extractor).collect::<Vec<_>>());
+                    } else {
+                        // the identity-lens rules go through `with_auto` (also the way `with_common` registers)
+                        match a[1].atom() {
+                            Some("xid") => { c.with_auto::<X>(mk_trigger(&a[0])); }
+                            Some("iterid") => { c.with_auto::<Iterations>(mk_trigger(&a[0])); }
+                            _ => { c.with(mk_trigger(&a[0]), mk_extractor(&a[1])); }
                         }
                     }
-                    Ok(())
-                })?;
+                };
+                if rs.len() >= 2 && rs.len() % 2 == 0 {
+                    // "repeated calls of this method access the same LogConfig": one call per rule
+                    for r in rs { state.configure_log(|c| { apply(c, r); Ok(()) })?; }
+                } else {
+                    state.configure_log(|c| { for r in rs { apply(c, r); } Ok(()) })?;
+                }
             }
             Ok(())
         })
@@ -632,42 +641,229 @@ fn pair_out(a: &Ser3, bb: &Ser3, json_relevant: bool) -> String {
 }
 
 // generated trees of real components --------------------------------------------------------------
+// A tree is described in the shape its export must denote: `(n Name (p PARAM…) KID…)` — every struct
+// (component, condition, lens, identifier wrapper, `PhantomData`), every sequence (`seq`, a `Block`
+// is serde(transparent)) and every `None` (`none`) is a node; scalars are parameter values
+// (u32 digits, f64 as `x` + IEEE bits); a type name written by the export is the parameter
+// `(ty PATH ARG…)`; a type parameter held as plain `PhantomData<I>` is `(ph (ty …))`.
 type SP = Sphere;
+
+/// Harness-defined generic state: `G<A>` and `G<B>` differ only in the type parameter.
+#[derive(Clone, Serialize, Tid, derive_more::Deref, derive_more::DerefMut)]
+#[serde(bound = "")]
+pub struct G<I: 'static>(#[deref] #[deref_mut] pub u32, #[serde(skip)] std::marker::PhantomData<fn() -> I>);
+impl<I: 'static> CustomState<'_> for G<I> {}
+
+fn ty(path: &str, args: &[String]) -> String {
+    let mut v = vec!["ty".to_string(), path.to_string()];
+    v.extend(args.iter().cloned());
+    list(v)
+}
+fn ty_id(i: &str) -> String { ty(&format!("mahf::identifier::inner::{i}"), &[]) }
+/// `type_name` elides a generic argument that equals its default (`NormalMutation<Global>` prints as `NormalMutation`).
+fn id_args(i: &str) -> Vec<String> { if i == "Global" { vec![] } else { vec![ty_id(i)] } }
+fn ty_value_of(t: String) -> String { ty("mahf::lens::common::ValueOf", &[t]) }
+fn ty_u32_state(k: &str) -> String {
+    match k {
+        "Iterations" => ty("mahf::state::common::Iterations", &[]),
+        "Evaluations" => ty("mahf::state::common::Evaluations", &[]),
+        "X" => ty("c15::X", &[]),
+        "G<A>" => ty("c15::G", &[ty_id("A")]),
+        "G<B>" => ty("c15::G", &[ty_id("B")]),
+        _ => panic!("u32 state {k}"),
+    }
+}
+/// Short key of a structured type: last path segment + generic arguments.
+fn ty_key(t: &Sx) -> String {
+    let it = t.items().unwrap();
+    let path = it[1].atom().unwrap();
+    let base = path.rsplit("::").next().unwrap().to_string();
+    if it.len() == 2 { base } else { format!("{base}<{}>", it[2..].iter().map(ty_key).collect::<Vec<_>>().join(",")) }
+}
+
+#[derive(Clone, Debug, PartialEq)]
+struct T { name: String, params: Vec<String>, kids: Vec<T>, cat: &'static str }
+impl T {
+    fn new(name: &str, params: Vec<String>, kids: Vec<T>) -> T { T { name: name.into(), params, kids, cat: "" } }
+    fn cat(mut self, c: &'static str) -> T { self.cat = c; self }
+    fn render(&self) -> String {
+        let mut items = vec!["n".to_string(), self.name.clone(), tagged("p", self.params.clone())];
+        items.extend(self.kids.iter().map(|k| k.render()));
+        list(items)
+    }
+    fn count(&self) -> usize { 1 + self.kids.iter().map(|k| k.count()).sum::<usize>() }
+    fn nth_mut(&mut self, n: &mut usize) -> Option<&mut T> {
+        if *n == 0 { return Some(self); }
+        *n -= 1;
+        for k in &mut self.kids { if let Some(t) = k.nth_mut(n) { return Some(t); } }
+        None
+    }
+}
+/// `PopulationSizeLens<P>(PhantomData<fn() -> P>)`: serde ignores `skip` on the only field of a newtype struct.
+fn pop_size_lens() -> T { T::new("PopulationSizeLens", vec![], vec![T::new("PhantomData", vec![], vec![])]) }
+fn seq(kids: Vec<T>) -> T { T::new("seq", vec![], kids) }
+fn none_t() -> T { T::new("none", vec![], vec![]) }
+
+// menus of type-carrying nodes; within one menu and one node name the entries differ ONLY in a type parameter
+const U32_STATES: [&str; 5] = ["Iterations", "Evaluations", "X", "G<A>", "G<B>"];
+fn u32_lens(i: usize) -> T { T::new("ValueOf", vec![ty_u32_state(U32_STATES[i])], vec![]).cat("u32lens") }
+const N_F64IN: usize = 6;
+fn f64in_lens(i: usize) -> T {
+    if i < 4 {
+        let k = ["Iterations", "Evaluations", "G<A>", "G<B>"][i];
+        T::new("ValueOf", vec![ty("mahf::state::common::Progress", &[ty_value_of(ty_u32_state(k))])], vec![]).cat("f64in")
+    } else {
+        let d = ["DimensionWiseDiversity", "PairwiseDistanceDiversity"][i - 4];
+        T::new("NormalizedDiversityLens", vec![ty(&format!("mahf::components::diversity::{d}"), &[])], vec![]).cat("f64in")
+    }
+}
+const N_F64OUT: usize = 8;
+fn f64out_lens(i: usize) -> T {
+    let (st, m, id) = [("MutationRate", "NormalMutation", "Global"), ("MutationRate", "NormalMutation", "A"), ("MutationRate", "NormalMutation", "B"),
+        ("MutationRate", "UniformMutation", "Global"), ("MutationRate", "UniformMutation", "A"),
+        ("MutationStrength", "NormalMutation", "Global"), ("MutationStrength", "NormalMutation", "A"), ("MutationStrength", "NormalMutation", "B")][i];
+    let comp = ty(&format!("mahf::components::mutation::common::{m}"), &id_args(id));
+    T::new("ValueOf", vec![ty(&format!("mahf::components::mutation::{st}"), &[comp])], vec![]).cat("f64out")
+}
+const IDS: [&str; 4] = ["Global", "A", "B", "I0"];
+fn id_node(i: usize) -> T { T::new("Id", vec![ty_id(IDS[i])], vec![]).cat("id") }
+fn ph_node(i: usize) -> T { T::new("PhantomData", vec![format!("(ph {})", ty_id(IDS[i]))], vec![]).cat("phid") }
+fn menu_len(cat: &str) -> usize { match cat { "u32lens" => 5, "f64in" => N_F64IN, "f64out" => N_F64OUT, "id" => 4, "phid" => 3, "f64in_p" => 2, "f64out_p" => 3, _ => 0 } }
+fn menu(cat: &'static str, i: usize) -> T {
+    match cat {
+        "u32lens" => u32_lens(i), "f64in" => f64in_lens(i), "f64out" => f64out_lens(i), "id" => id_node(i), "phid" => ph_node(i),
+        "f64in_p" => f64in_lens(i).cat("f64in_p"), "f64out_p" => f64out_lens(i).cat("f64out_p"),
+        _ => panic!("menu {cat}"),
+    }
+}
+
+// building the real components ---------------------------------------------------------------------
+fn node_parts(n: &Sx) -> (&str, &[Sx], &[Sx]) {
+    let it = n.items().unwrap();
+    (it[1].atom().unwrap(), &it[2].items().unwrap()[1..], &it[3..])
+}
 fn pu(a: &[Sx], i: usize) -> u32 { a[i].nat().unwrap() as u32 }
-fn pf(a: &[Sx], i: usize) -> f64 { a[i].atom().unwrap().parse::<f64>().unwrap() }
+fn pf(a: &[Sx], i: usize) -> f64 { a[i].float().unwrap() }
+/// (node name, key of its type parameter) of a lens / identifier node.
+fn tkey(n: &Sx) -> (String, String) {
+    let (name, ps, _) = node_parts(n);
+    let key = match ps.first() {
+        None => String::new(),
+        Some(p) => match p.head() { Some(("ph", a)) => ty_key(&a[0]), _ => ty_key(p) },
+    };
+    (name.to_string(), key)
+}
+macro_rules! with_u32_lens { ($n:expr, |$L:ident| $body:expr) => {{
+    let (ln, k) = tkey($n);
+    match (ln.as_str(), k.as_str()) {
+        ("ValueOf", "Iterations") => { type $L = ValueOf<Iterations>; $body }
+        ("ValueOf", "Evaluations") => { type $L = ValueOf<Evaluations>; $body }
+        ("ValueOf", "X") => { type $L = ValueOf<X>; $body }
+        ("ValueOf", "G<A>") => { type $L = ValueOf<G<mahf::identifier::A>>; $body }
+        ("ValueOf", "G<B>") => { type $L = ValueOf<G<mahf::identifier::B>>; $body }
+        other => panic!("u32 lens {other:?}"),
+    }
+}}}
+macro_rules! with_f64in { ($n:expr, |$L:ident| $body:expr) => {{
+    use mahf::components::diversity::{DimensionWiseDiversity, NormalizedDiversityLens, PairwiseDistanceDiversity};
+    let (ln, k) = tkey($n);
+    match (ln.as_str(), k.as_str()) {
+        ("ValueOf", "Progress<ValueOf<Iterations>>") => { type $L = ValueOf<Progress<ValueOf<Iterations>>>; $body }
+        ("ValueOf", "Progress<ValueOf<Evaluations>>") => { type $L = ValueOf<Progress<ValueOf<Evaluations>>>; $body }
+        ("ValueOf", "Progress<ValueOf<G<A>>>") => { type $L = ValueOf<Progress<ValueOf<G<mahf::identifier::A>>>>; $body }
+        ("ValueOf", "Progress<ValueOf<G<B>>>") => { type $L = ValueOf<Progress<ValueOf<G<mahf::identifier::B>>>>; $body }
+        ("NormalizedDiversityLens", "DimensionWiseDiversity") => { type $L = NormalizedDiversityLens<DimensionWiseDiversity>; $body }
+        ("NormalizedDiversityLens", "PairwiseDistanceDiversity") => { type $L = NormalizedDiversityLens<PairwiseDistanceDiversity>; $body }
+        other => panic!("f64 input lens {other:?}"),
+    }
+}}}
+macro_rules! with_f64out { ($n:expr, |$L:ident| $body:expr) => {{
+    use mahf::components::mutation::{MutationRate, MutationStrength, NormalMutation, UniformMutation};
+    use mahf::identifier::{A, B};
+    let (ln, k) = tkey($n);
+    match (ln.as_str(), k.as_str()) {
+        ("ValueOf", "MutationRate<NormalMutation>") => { type $L = ValueOf<MutationRate<NormalMutation>>; $body }
+        ("ValueOf", "MutationRate<NormalMutation<A>>") => { type $L = ValueOf<MutationRate<NormalMutation<A>>>; $body }
+        ("ValueOf", "MutationRate<NormalMutation<B>>") => { type $L = ValueOf<MutationRate<NormalMutation<B>>>; $body }
+        ("ValueOf", "MutationRate<UniformMutation>") => { type $L = ValueOf<MutationRate<UniformMutation>>; $body }
+        ("ValueOf", "MutationRate<UniformMutation<A>>") => { type $L = ValueOf<MutationRate<UniformMutation<A>>>; $body }
+        ("ValueOf", "MutationStrength<NormalMutation>") => { type $L = ValueOf<MutationStrength<NormalMutation>>; $body }
+        ("ValueOf", "MutationStrength<NormalMutation<A>>") => { type $L = ValueOf<MutationStrength<NormalMutation<A>>>; $body }
+        ("ValueOf", "MutationStrength<NormalMutation<B>>") => { type $L = ValueOf<MutationStrength<NormalMutation<B>>>; $body }
+        other => panic!("f64 output lens {other:?}"),
+    }
+}}}
+/// the restricted menus of `Polynomial` (fewer instantiations)
+macro_rules! with_f64in_p { ($n:expr, |$L:ident| $body:expr) => {{
+    let (ln, k) = tkey($n);
+    match (ln.as_str(), k.as_str()) {
+        ("ValueOf", "Progress<ValueOf<Iterations>>") => { type $L = ValueOf<Progress<ValueOf<Iterations>>>; $body }
+        ("ValueOf", "Progress<ValueOf<Evaluations>>") => { type $L = ValueOf<Progress<ValueOf<Evaluations>>>; $body }
+        other => panic!("f64 input lens (Polynomial) {other:?}"),
+    }
+}}}
+macro_rules! with_f64out_p { ($n:expr, |$L:ident| $body:expr) => {{
+    use mahf::components::mutation::{MutationRate, NormalMutation};
+    use mahf::identifier::{A, B};
+    let (ln, k) = tkey($n);
+    match (ln.as_str(), k.as_str()) {
+        ("ValueOf", "MutationRate<NormalMutation>") => { type $L = ValueOf<MutationRate<NormalMutation>>; $body }
+        ("ValueOf", "MutationRate<NormalMutation<A>>") => { type $L = ValueOf<MutationRate<NormalMutation<A>>>; $body }
+        ("ValueOf", "MutationRate<NormalMutation<B>>") => { type $L = ValueOf<MutationRate<NormalMutation<B>>>; $body }
+        other => panic!("f64 output lens (Polynomial) {other:?}"),
+    }
+}}}
+macro_rules! with_id { ($n:expr, |$I:ident| $body:expr) => {{
+    let (_, k) = tkey($n);
+    match k.as_str() {
+        "Global" => { type $I = mahf::identifier::Global; $body }
+        "A" => { type $I = mahf::identifier::A; $body }
+        "B" => { type $I = mahf::identifier::B; $body }
+        "I0" => { type $I = mahf::identifier::I0; $body }
+        other => panic!("identifier {other:?}"),
+    }
+}}}
 
 fn mk_cond(n: &Sx) -> Box<dyn Condition<SP>> {
-    let it = n.items().unwrap();
-    let name = it[1].atom().unwrap();
-    let ps = &it[2].items().unwrap()[1..];
-    let kids = &it[3..];
+    use mahf::conditions::common::{ChangeOf, DeltaEqChecker, PartialEqChecker};
+    let (name, ps, kids) = node_parts(n);
     match name {
-        "LessThanN" => match ps[1].atom().unwrap() {
-            "iterations" => LessThanN::iterations(pu(ps, 0)),
-            _ => LessThanN::evaluations(pu(ps, 0)),
+        "LessThanN" => match node_parts(&kids[0]).0 {
+            "PopulationSizeLens" => LessThanN::new(pu(ps, 0), PopulationSizeLens::<SP>::new()),
+            _ => with_u32_lens!(&kids[0], |L| LessThanN::new(pu(ps, 0), <L>::default())),
         },
-        "EveryN" => EveryN::iterations(pu(ps, 0)),
+        "EveryN" => match node_parts(&kids[0]).0 {
+            "PopulationSizeLens" => EveryN::new(pu(ps, 0), PopulationSizeLens::<SP>::new()),
+            _ => with_u32_lens!(&kids[0], |L| EveryN::new(pu(ps, 0), <L>::default())),
+        },
+        "ChangeOf" => {
+            let (cn, cps, _) = node_parts(&kids[0]);
+            let checker: Box<dyn mahf::conditions::common::EqualityChecker<u32>> = match cn {
+                "PartialEqChecker" => Box::new(PartialEqChecker),
+                _ => DeltaEqChecker::new(pu(cps, 0)),
+            };
+            with_u32_lens!(&kids[1], |L| ChangeOf::new(checker, <L>::default()))
+        }
         "RandomChance" => RandomChance::new(pf(ps, 0)),
         "Not" => Not::new(mk_cond(&kids[0])),
-        "And" => And::new(kids.iter().map(mk_cond).collect::<Vec<_>>()),
-        "Or" => Or::new(kids.iter().map(mk_cond).collect::<Vec<_>>()),
+        "And" => And::new(node_parts(&kids[0]).2.iter().map(mk_cond).collect::<Vec<_>>()),
+        "Or" => Or::new(node_parts(&kids[0]).2.iter().map(mk_cond).collect::<Vec<_>>()),
         _ => panic!("cond {name}"),
     }
 }
 fn mk_comp(n: &Sx) -> Box<dyn Component<SP>> {
-    let it = n.items().unwrap();
-    let name = it[1].atom().unwrap();
-    let ps = &it[2].items().unwrap()[1..];
-    let kids = &it[3..];
+    use mahf::components::mapping::{Linear, Polynomial};
+    use mahf::components::swarm::{bh::BlackHoleParticlesUpdate, fa::FireflyPositionsUpdate, pso::PersonalBestParticlesInit};
+    let (name, ps, kids) = node_parts(n);
     match name {
-        "Block" => Block::new(kids.iter().map(mk_comp).collect::<Vec<_>>()),
+        "seq" => Block::new(kids.iter().map(mk_comp).collect::<Vec<_>>()),
         "Loop" => Loop::new(mk_cond(&kids[0]), mk_comp(&kids[1])),
-        "Branch" => if kids.len() == 2 { Branch::new(mk_cond(&kids[0]), mk_comp(&kids[1])) }
+        "Branch" => if node_parts(&kids[2]).0 == "none" { Branch::new(mk_cond(&kids[0]), mk_comp(&kids[1])) }
                     else { Branch::new_with_else(mk_cond(&kids[0]), mk_comp(&kids[1]), mk_comp(&kids[2])) },
         "Scope" => Scope::new_with(|_| Ok(()), mk_comp(&kids[0]), |_, _| Ok(())),
         "RandomSpread" => initialization::RandomSpread::new(pu(ps, 0)),
-        "NormalMutation" => mutation::NormalMutation::new(pf(ps, 0), pf(ps, 1)),
-        "UniformMutation" => mutation::UniformMutation::new(pf(ps, 0), pf(ps, 1)),
+        "NormalMutation" => with_id!(&kids[0], |I| mutation::NormalMutation::<I>::new_with_id(pf(ps, 0), pf(ps, 1))),
+        "UniformMutation" => with_id!(&kids[0], |I| mutation::UniformMutation::<I>::new_with_id(pf(ps, 0), pf(ps, 1))),
         "Tournament" => selection::Tournament::new(pu(ps, 0), pu(ps, 1)),
         "FullyRandom" => selection::FullyRandom::new(pu(ps, 0)),
         "LinearRank" => selection::LinearRank::new(pu(ps, 0)),
@@ -676,7 +872,12 @@ fn mk_comp(n: &Sx) -> Box<dyn Component<SP>> {
         "Generational" => replacement::Generational::new(pu(ps, 0)),
         "Merge" => replacement::Merge::new(),
         "DiscardOffspring" => replacement::DiscardOffspring::new(),
-        "PopulationEvaluator" => mahf::components::evaluation::PopulationEvaluator::new(),
+        "PopulationEvaluator" => with_id!(&kids[0], |I| mahf::components::evaluation::PopulationEvaluator::<I>::new_with()),
+        "FireflyPositionsUpdate" => with_id!(&kids[0], |I| FireflyPositionsUpdate::<I>::new_with_id(pf(ps, 0), pf(ps, 1), pf(ps, 2))),
+        "BlackHoleParticlesUpdate" => with_id!(&kids[0], |I| BlackHoleParticlesUpdate::<I>::new_with_id()),
+        "PersonalBestParticlesInit" => with_id!(&kids[0], |I| PersonalBestParticlesInit::<I>::new()),
+        "Linear" => with_f64in!(&kids[0], |LI| with_f64out!(&kids[1], |LO| Linear::new(pf(ps, 0), pf(ps, 1), <LI>::default(), <LO>::default()))),
+        "Polynomial" => with_f64in_p!(&kids[0], |LI| with_f64out_p!(&kids[1], |LO| Polynomial::new(pf(ps, 0), pf(ps, 1), pf(ps, 2), <LI>::default(), <LO>::default()))),
         "BestIndividualUpdate" => mahf::components::evaluation::BestIndividualUpdate::new(),
         "Logger" => Logger::new(),
         "Noop" => Noop::new(),
@@ -695,84 +896,106 @@ fn ser_tree(n: &Sx, tag: &str) -> Ser3 {
     }
 }
 
-const UVALS: [&str; 6] = ["0", "1", "2", "3", "5", "8"];
-const FVALS: [&str; 6] = ["0.1", "0.25", "0.5", "1.0", "2.0", "0.0"];
-/// (name, parameter kinds) — `u` u32, `f` f64
-const LEAVES: [(&str, &str); 15] = [
-    ("RandomSpread", "u"), ("NormalMutation", "ff"), ("UniformMutation", "ff"), ("Tournament", "uu"),
-    ("FullyRandom", "u"), ("LinearRank", "u"), ("RouletteWheel", "uf"), ("MuPlusLambda", "u"),
-    ("Generational", "u"), ("Merge", ""), ("DiscardOffspring", ""), ("PopulationEvaluator", ""),
-    ("BestIndividualUpdate", ""), ("Logger", ""), ("Noop", ""),
+const UVALS: [&str; 9] = ["0", "1", "2", "3", "5", "8", "300", "70000", "4294967295"];
+const FVALS: [f64; 10] = [0.1, 0.25, 0.5, 1.0, 2.0, 0.0, 0.3, 0.1 + 0.2, 1.0 / 3.0, 1.2345678e-7];
+/// (name, parameter kinds, extra child category) — `u` u32, `f` f64
+const LEAVES: [(&str, &str, &str); 20] = [
+    ("RandomSpread", "u", ""), ("NormalMutation", "ff", "phid"), ("UniformMutation", "ff", "phid"), ("Tournament", "uu", ""),
+    ("FullyRandom", "u", ""), ("LinearRank", "u", ""), ("RouletteWheel", "uf", ""), ("MuPlusLambda", "u", ""),
+    ("Generational", "u", ""), ("Merge", "", ""), ("DiscardOffspring", "", ""), ("PopulationEvaluator", "", "id"),
+    ("BestIndividualUpdate", "", ""), ("Logger", "", ""), ("Noop", "", ""),
+    ("FireflyPositionsUpdate", "fff", "id"), ("BlackHoleParticlesUpdate", "", "id"), ("PersonalBestParticlesInit", "", "id"),
+    ("Linear", "ff", "map"), ("Polynomial", "fff", "map_p"),
 ];
-
-#[derive(Clone, Debug, PartialEq)]
-struct T { name: String, params: Vec<String>, kids: Vec<T> }
-impl T {
-    fn render(&self) -> String {
-        let mut items = vec!["n".to_string(), self.name.clone(), tagged("p", self.params.clone())];
-        items.extend(self.kids.iter().map(|k| k.render()));
-        list(items)
-    }
-    fn count(&self) -> usize { 1 + self.kids.iter().map(|k| k.count()).sum::<usize>() }
-    fn nth_mut(&mut self, n: &mut usize) -> Option<&mut T> {
-        if *n == 0 { return Some(self); }
-        *n -= 1;
-        for k in &mut self.kids { if let Some(t) = k.nth_mut(n) { return Some(t); } }
-        None
-    }
-}
 fn gen_params(r: &mut Sm, kinds: &str) -> Vec<String> {
-    kinds.chars().map(|c| if c == 'u' { r.pick(&UVALS).to_string() } else { r.pick(&FVALS).to_string() }).collect()
+    kinds.chars().map(|c| if c == 'u' { r.pick(&UVALS).to_string() } else { fx(*r.pick(&FVALS)) }).collect()
 }
-fn gen_leaf(r: &mut Sm) -> T {
-    let (n, k) = *r.pick(&LEAVES);
-    T { name: n.into(), params: gen_params(r, k), kids: vec![] }
+fn pick_menu(r: &mut Sm, cat: &'static str) -> T { menu(cat, r.below(menu_len(cat) as u64) as usize) }
+fn leaf_of(r: &mut Sm, i: usize, default_types: bool) -> T {
+    let (n, k, extra) = LEAVES[i];
+    let kids = match extra {
+        "" => vec![],
+        "map" => if default_types { vec![menu("f64in", 0), menu("f64out", 0)] } else { vec![pick_menu(r, "f64in"), pick_menu(r, "f64out")] },
+        "map_p" => if default_types { vec![menu("f64in_p", 0), menu("f64out_p", 0)] } else { vec![pick_menu(r, "f64in_p"), pick_menu(r, "f64out_p")] },
+        cat => if default_types || r.chance(1, 2) { vec![menu(cat, 0)] } else { vec![pick_menu(r, cat)] },
+    };
+    T::new(n, gen_params(r, k), kids)
+}
+fn gen_leaf(r: &mut Sm) -> T { let i = r.below(LEAVES.len() as u64) as usize; leaf_of(r, i, false) }
+fn gen_u32_lens(r: &mut Sm) -> T {
+    match r.below(8) { 0..=2 => u32_lens(0), 3 => u32_lens(1), 4 => pop_size_lens(), _ => pick_menu(r, "u32lens") }
 }
 fn gen_cond(r: &mut Sm, depth: u32) -> T {
-    let c = if depth == 0 { r.below(3) } else { r.below(6) };
+    let c = if depth == 0 { r.below(4) } else { r.below(7) };
     match c {
-        0 => T { name: "LessThanN".into(), params: vec![r.pick(&UVALS).to_string(), (*r.pick(&["iterations", "evaluations"])).into()], kids: vec![] },
-        1 => T { name: "EveryN".into(), params: vec![r.pick(&UVALS).to_string()], kids: vec![] },
-        2 => T { name: "RandomChance".into(), params: vec![r.pick(&FVALS).to_string()], kids: vec![] },
-        3 => T { name: "Not".into(), params: vec![], kids: vec![gen_cond(r, depth - 1)] },
-        4 => T { name: "And".into(), params: vec![], kids: (0..r.below(3)).map(|_| gen_cond(r, depth - 1)).collect() },
-        _ => T { name: "Or".into(), params: vec![], kids: (0..r.below(3)).map(|_| gen_cond(r, depth - 1)).collect() },
+        0 => T::new("LessThanN", vec![r.pick(&UVALS).to_string()], vec![gen_u32_lens(r)]),
+        1 => T::new("EveryN", vec![r.pick(&UVALS).to_string()], vec![gen_u32_lens(r)]),
+        2 => T::new("RandomChance", vec![fx(*r.pick(&FVALS))], vec![]),
+        3 => {
+            let checker = if r.chance(1, 2) { T::new("PartialEqChecker", vec![], vec![]) } else { T::new("DeltaEqChecker", vec![r.pick(&UVALS).to_string()], vec![]) };
+            T::new("ChangeOf", vec![], vec![checker, pick_menu(r, "u32lens")])
+        }
+        4 => T::new("Not", vec![], vec![gen_cond(r, depth - 1)]),
+        5 => T::new("And", vec![], vec![seq((0..r.below(3)).map(|_| gen_cond(r, depth - 1)).collect()).cat("condseq")]),
+        _ => T::new("Or", vec![], vec![seq((0..r.below(3)).map(|_| gen_cond(r, depth - 1)).collect()).cat("condseq")]),
     }
 }
 fn gen_block(r: &mut Sm, depth: u32) -> T {
     let n = r.below(4);
-    T { name: "Block".into(), params: vec![], kids: (0..n).map(|_| gen_comp(r, depth)).collect() }
+    seq((0..n).map(|_| gen_comp(r, depth)).collect())
 }
 fn gen_comp(r: &mut Sm, depth: u32) -> T {
     if depth == 0 || r.chance(1, 2) { return gen_leaf(r); }
     match r.below(5) {
-        0 => T { name: "Loop".into(), params: vec![], kids: vec![gen_cond(r, 2), gen_block(r, depth - 1)] },
-        1 => T { name: "Branch".into(), params: vec![], kids: vec![gen_cond(r, 2), gen_block(r, depth - 1)] },
-        2 => T { name: "Branch".into(), params: vec![], kids: vec![gen_cond(r, 2), gen_block(r, depth - 1), gen_block(r, depth - 1)] },
-        3 => T { name: "Scope".into(), params: vec![], kids: vec![gen_block(r, depth - 1)] },
+        0 => T::new("Loop", vec![], vec![gen_cond(r, 2), gen_block(r, depth - 1)]),
+        1 => T::new("Branch", vec![], vec![gen_cond(r, 2), gen_block(r, depth - 1), none_t()]),
+        2 => T::new("Branch", vec![], vec![gen_cond(r, 2), gen_block(r, depth - 1), gen_block(r, depth - 1)]),
+        3 => T::new("Scope", vec![], vec![gen_block(r, depth - 1)]),
         _ => gen_block(r, depth - 1),
     }
 }
-/// Changes exactly one parameter value (→ "param") or exactly one node (→ "node"); `None` if the
-/// chosen node offers nothing to change.
+const COND_NAMES: [&str; 7] = ["LessThanN", "EveryN", "RandomChance", "ChangeOf", "Not", "And", "Or"];
+/// Changes exactly one parameter value (→ "param"), exactly one type parameter (→ "typaram-…") or
+/// exactly one node (→ "node"); `None` if the chosen node offers nothing to change.
 fn mutate(r: &mut Sm, t: &T) -> Option<(T, &'static str)> {
     let mut t2 = t.clone();
     let mut idx = r.below(t.count() as u64) as usize;
     let node = t2.nth_mut(&mut idx)?;
-    let what = r.below(3);
-    if what == 0 && !node.params.is_empty() {
-        let i = r.below(node.params.len() as u64) as usize;
+    let what = r.below(4);
+    if node.cat == "condseq" {
+        // one operand more / one fewer
+        if !node.kids.is_empty() && r.chance(1, 2) {
+            let i = r.below(node.kids.len() as u64) as usize;
+            node.kids.remove(i);
+        } else {
+            let i = r.below(node.kids.len() as u64 + 1) as usize;
+            node.kids.insert(i, gen_cond(r, 1));
+        }
+        return Some((t2, "node"));
+    }
+    if !node.cat.is_empty() && (what == 3 || node.kids.is_empty()) {
+        // another instantiation of the same lens / identifier wrapper: only the type parameter differs
+        let cat = node.cat;
+        let cands: Vec<T> = (0..menu_len(cat)).map(|i| menu(cat, i)).filter(|m| m.name == node.name && *m != *node).collect();
+        if cands.is_empty() { return None; }
+        *node = r.pick(&cands).clone();
+        return Some((t2, match cat { "id" => "typaram-id", "phid" => "typaram-phantom", _ => "typaram-lens" }));
+    }
+    let plain: Vec<usize> = (0..node.params.len()).filter(|i| !node.params[*i].starts_with('(')).collect();
+    if what == 0 && !plain.is_empty() {
+        let i = *r.pick(&plain);
         let old = node.params[i].clone();
-        let pool: &[&str] = if UVALS.contains(&old.as_str()) { &UVALS } else if FVALS.contains(&old.as_str()) { &FVALS } else { &["iterations", "evaluations"] };
-        let new = pool.iter().find(|v| **v != old && r.chance(1, 2)).or(pool.iter().find(|v| **v != old))?;
-        node.params[i] = new.to_string();
+        let pool: Vec<String> = if old.starts_with('x') { FVALS.iter().map(|f| fx(*f)).collect() } else { UVALS.iter().map(|u| u.to_string()).collect() };
+        let others: Vec<&String> = pool.iter().filter(|v| **v != old).collect();
+        node.params[i] = (*r.pick(&others)).clone();
         return Some((t2, "param"));
     }
     if what == 1 {
         // same-shaped node of another type
-        let swaps: [(&str, &str); 12] = [("MuPlusLambda", "Generational"), ("Generational", "MuPlusLambda"), ("Merge", "DiscardOffspring"),
-            ("DiscardOffspring", "Noop"), ("Noop", "Logger"), ("Logger", "BestIndividualUpdate"), ("BestIndividualUpdate", "PopulationEvaluator"),
-            ("PopulationEvaluator", "Merge"), ("NormalMutation", "UniformMutation"), ("UniformMutation", "NormalMutation"), ("And", "Or"), ("Or", "And")];
+        let swaps: [(&str, &str); 14] = [("MuPlusLambda", "Generational"), ("Generational", "MuPlusLambda"), ("Merge", "DiscardOffspring"),
+            ("DiscardOffspring", "Noop"), ("Noop", "Logger"), ("Logger", "BestIndividualUpdate"), ("BestIndividualUpdate", "Merge"),
+            ("NormalMutation", "UniformMutation"), ("UniformMutation", "NormalMutation"), ("And", "Or"), ("Or", "And"),
+            ("LessThanN", "EveryN"), ("BlackHoleParticlesUpdate", "PersonalBestParticlesInit"), ("PersonalBestParticlesInit", "PopulationEvaluator")];
         if let Some((_, to)) = swaps.iter().find(|(from, _)| *from == node.name) {
             node.name = to.to_string();
             return Some((t2, "node"));
@@ -780,11 +1003,26 @@ fn mutate(r: &mut Sm, t: &T) -> Option<(T, &'static str)> {
         if node.name == "FullyRandom" { node.name = "LinearRank".into(); return Some((t2, "node")); }
         if node.name == "LinearRank" { node.name = "FullyRandom".into(); return Some((t2, "node")); }
     }
-    // structural: one more / one fewer child in a sequence
-    if node.name == "Block" {
+    if what == 2 && COND_NAMES.contains(&node.name.as_str()) {
+        // one negation more / one fewer
+        if node.name == "Not" && r.chance(1, 2) { let inner = node.kids[0].clone(); *node = inner; }
+        else { let inner = node.clone(); *node = T::new("Not", vec![], vec![inner]); }
+        return Some((t2, "node"));
+    }
+    if node.name == "Scope" {
+        // the same body without its own scope
+        node.name = "seq".into();
+        return Some((t2, "node"));
+    }
+    // structural: one more / one fewer child in a sequence of components
+    if node.name == "seq" {
         if !node.kids.is_empty() && r.chance(1, 2) {
             let i = r.below(node.kids.len() as u64) as usize;
             node.kids.remove(i);
+        } else if r.chance(1, 6) && node.kids.len() == 1 && node.kids[0].name == "seq" {
+            // a sequence nested once more
+            let inner = node.clone();
+            node.kids = vec![inner];
         } else {
             let i = r.below(node.kids.len() as u64 + 1) as usize;
             node.kids.insert(i, gen_leaf(r));
@@ -792,10 +1030,19 @@ fn mutate(r: &mut Sm, t: &T) -> Option<(T, &'static str)> {
         return Some((t2, "node"));
     }
     if node.name == "Branch" {
-        if node.kids.len() == 3 { node.kids.pop(); } else { node.kids.push(T { name: "Block".into(), params: vec![], kids: vec![] }); }
+        node.kids[2] = if node.kids[2].name == "none" { seq(vec![]) } else { none_t() };
         return Some((t2, "node"));
     }
     None
+}
+/// Site of a pair case: by the kind of difference.
+fn pair_site(kind: &str) -> String {
+    match kind { "typaram-lens" => "cfg-typair-lens".into(), "typaram-id" => "cfg-typair-id".into(), "typaram-phantom" => "cfg-typair-phantom".into(), _ => "cfg-pair".into() }
+}
+fn pair_out_trees(a: &Ser3, bb: &Ser3, json_relevant: bool) -> String {
+    let base = pair_out(a, bb, json_relevant);
+    let tr = |t: &Result<String, ()>| t.clone().unwrap_or_else(|_| "err".into());
+    format!("{} (ta {}) (tb {}))", &base[..base.len() - 1], tr(&a.3), tr(&bb.3))
 }
 
 fn run_cfg(input: &Sx) -> String {
@@ -818,7 +1065,7 @@ fn run_cfg(input: &Sx) -> String {
             let kind = it[2].atom().unwrap();
             let a = ser_tree(&it[3], "ga");
             let bb = ser_tree(&it[4], "gb");
-            pair_out(&a, &bb, kind != "node")
+            pair_out_trees(&a, &bb, kind == "same" || kind == "param" || kind.starts_with("typaram"))
         }
         other => panic!("cfg {other}"),
     }
@@ -844,7 +1091,7 @@ fn site_of(input: &Sx) -> String {
         }
         "tl" => "template-log".into(),
         "fl" => if it[1..].iter().all(|v| v.float().map(|f| f.is_finite()).unwrap_or(false)) { "logger-float".into() } else { "logger-float-nonfinite".into() },
-        _ => format!("cfg-{}", it[1].atom().unwrap()),
+        _ => if it[1].atom() == Some("pair") { pair_site(it[2].atom().unwrap()) } else { format!("cfg-{}", it[1].atom().unwrap()) },
     }
 }
 
@@ -930,6 +1177,10 @@ fn main() {
         "(rules (r always (named 3 (const 1))) (many always xid xval) clear (r (every 2) xid))",
         "(rules (r always xid) clear)",
         "(rules (r (every 0) xid) (r always (named 0 iter)) (r (not (every 0)) (named 1 x)))",
+        // ChangeOf triggers (initialised by Logger::init); only in programs without a scope
+        "(rules (r changed xid))",
+        "(rules (r (every 2) (named 0 x)) (r changed xval) (r never xid))",
+        "(rules (r (not changed) (named 1 iter)) (r always (named 2 (const 3))))",
     ];
     let placements: Vec<Box<dyn Fn(u64) -> String>> = vec![
         Box::new(|n| format!("(tree (log) (loop {n} (addx 1)))")),
@@ -957,27 +1208,15 @@ fn main() {
     for rs in &rule_sets {
         for p in &placements {
             for n in 0..=5u64 {
-                emit(format!("(lg {} {})", rs, p(n)));
+                let tree = p(n);
+                if rs.contains("changed") && tree.contains("(scope") { continue; }
+                emit(format!("(lg {} {})", rs, tree));
             }
         }
     }
     // 2. random programs and rule sets
     let n_rand = if a.thorough { 100000 } else { 2500 };
     for _ in 0..n_rand {
-        let nr = r.below(5);
-        let rules = if r.chance(1, 25) { "noconfig".to_string() } else {
-            let items: Vec<String> = (0..nr).map(|_| match r.below(12) {
-                0 => "clear".to_string(),
-                1 | 2 => {
-                    // with_many clones the trigger: only stateless triggers here
-                    let t = loop { let t = gen_trig(&mut r); if !t.contains("script") { break t; } };
-                    let k = r.range(1, 3);
-                    tagged(&format!("many {t}"), (0..k).map(|_| gen_ext(&mut r)))
-                }
-                _ => format!("(r {} {})", gen_trig(&mut r), gen_ext(&mut r)),
-            }).collect();
-            tagged("rules", items)
-        };
         let len = r.range(1, 4);
         let mut tree = gen_nodes(&mut r, 2, len);
         if r.chance(9, 10) && !tree.iter().any(|t| t.starts_with("(loop")) {
@@ -988,6 +1227,26 @@ fn main() {
             let pos = r.below(tree.len() as u64 + 1) as usize;
             tree.insert(pos, tagged(&format!("loop {n}"), body));
         }
+        // at most one ChangeOf trigger per rule set, and only in programs without a scope
+        let mut changed_left = !tree.iter().any(|t| t.contains("(scope"));
+        let nr = r.below(5);
+        let rules = if r.chance(1, 25) { "noconfig".to_string() } else {
+            let items: Vec<String> = (0..nr).map(|_| match r.below(12) {
+                0 => "clear".to_string(),
+                1 | 2 => {
+                    // with_many clones the trigger: only stateless triggers here
+                    let t = loop { let t = gen_trig(&mut r); if !t.contains("script") { break t; } };
+                    let k = r.range(1, 3);
+                    tagged(&format!("many {t}"), (0..k).map(|_| gen_ext(&mut r)))
+                }
+                3 if changed_left => {
+                    changed_left = false;
+                    format!("(r {} {})", *r.pick(&["changed", "changed", "(not changed)"]), gen_ext(&mut r))
+                }
+                _ => format!("(r {} {})", gen_trig(&mut r), gen_ext(&mut r)),
+            }).collect();
+            tagged("rules", items)
+        };
         emit(format!("(lg {} {})", rules, tagged("tree", tree)));
     }
 
@@ -1050,6 +1309,37 @@ fn main() {
             }
         }
     }
+    // 4b. pairs that differ ONLY in a type parameter (lens target, identifier), each inside
+    //     `while LessThanN::iterations(100) { … }`: every pair of every menu under every host component
+    {
+        let ctx = |inner: T| T::new("Loop", vec![], vec![T::new("LessThanN", vec!["100".into()], vec![u32_lens(0)]), seq(vec![inner])]);
+        let mut hosts: Vec<(&'static str, Box<dyn Fn(T) -> T>)> = vec![];
+        hosts.push(("u32lens", Box::new(|l| T::new("Branch", vec![], vec![T::new("LessThanN", vec!["7".into()], vec![l]), seq(vec![]), none_t()]))));
+        hosts.push(("u32lens", Box::new(|l| T::new("Branch", vec![], vec![T::new("EveryN", vec!["3".into()], vec![l]), seq(vec![]), none_t()]))));
+        hosts.push(("u32lens", Box::new(|l| T::new("Branch", vec![], vec![T::new("Not", vec![], vec![T::new("ChangeOf", vec![], vec![T::new("PartialEqChecker", vec![], vec![]), l])]), seq(vec![]), none_t()]))));
+        hosts.push(("f64in", Box::new(|l| T::new("Linear", vec![fx(0.9), fx(0.1)], vec![l, f64out_lens(0)]))));
+        hosts.push(("f64out", Box::new(|l| T::new("Linear", vec![fx(0.9), fx(0.1)], vec![f64in_lens(0), l]))));
+        hosts.push(("f64in_p", Box::new(|l| T::new("Polynomial", vec![fx(0.9), fx(0.1), fx(2.0)], vec![l, menu("f64out_p", 0)]))));
+        hosts.push(("f64out_p", Box::new(|l| T::new("Polynomial", vec![fx(0.9), fx(0.1), fx(2.0)], vec![menu("f64in_p", 1), l]))));
+        hosts.push(("id", Box::new(|l| T::new("PopulationEvaluator", vec![], vec![l]))));
+        hosts.push(("id", Box::new(|l| T::new("FireflyPositionsUpdate", vec![fx(0.2), fx(1.0), fx(0.5)], vec![l]))));
+        hosts.push(("id", Box::new(|l| T::new("BlackHoleParticlesUpdate", vec![], vec![l]))));
+        hosts.push(("id", Box::new(|l| T::new("PersonalBestParticlesInit", vec![], vec![l]))));
+        hosts.push(("phid", Box::new(|l| T::new("NormalMutation", vec![fx(0.1), fx(0.5)], vec![l]))));
+        hosts.push(("phid", Box::new(|l| T::new("UniformMutation", vec![fx(0.1), fx(0.5)], vec![l]))));
+        for (cat, host) in &hosts {
+            for i in 0..menu_len(cat) {
+                for j in i..menu_len(cat) {
+                    if i == j && i > 0 { continue; }
+                    let (x, y) = (menu(cat, i), menu(cat, j));
+                    let kind = if i == j { "same" } else if x.name != y.name { "node" }
+                        else { match *cat { "id" => "typaram-id", "phid" => "typaram-phantom", _ => "typaram-lens" } };
+                    emit(format!("(cfg pair {kind} {} {})", ctx(host(x)).render(), ctx(host(y)).render()));
+                }
+            }
+        }
+    }
+    // 4c. random trees: a copy with exactly one value / type parameter / node changed, or none
     let n_pairs = if a.thorough { 20000 } else { 700 };
     for i in 0..n_pairs {
         let t = gen_block(&mut r, 3);
